@@ -297,7 +297,7 @@ func tryGetRedumpKey(fsys afero.Fs, requestedPath string) ([]byte, error) {
 
 	// a key file that exists but cannot be opened is an error, not "there is no key":
 	// otherwise the image would be served still encrypted
-	if !errors.Is(err, afero.ErrFileNotFound) {
+	if !keyFileMissing(err) {
 		return nil, err
 	}
 
@@ -310,7 +310,17 @@ func tryGetRedumpKey(fsys afero.Fs, requestedPath string) ([]byte, error) {
 		return ReadKeyFile(keyFile)
 	}
 
+	if keyFileMissing(err) {
+		return nil, afero.ErrFileNotFound
+	}
+
 	return nil, err
+}
+
+// keyFileMissing tells "there is no such key file" from a key file that exists but cannot be opened.
+// A regular file where one of the directories of the key's path would be (e.g. a file named REDKEY) means the former.
+func keyFileMissing(err error) bool {
+	return errors.Is(err, afero.ErrFileNotFound) || errors.Is(err, syscall.ENOTDIR)
 }
 
 func deriveISOKey(targetKey, data1Key []byte) error {
